@@ -56,7 +56,7 @@ pub fn eval(ctx: &Ctx, case: &Case) {
             let (pk, sk) = match tag.strip_prefix("key-object-Z=") {
                 Some(l) => {
                     let pk = gm_sm2::key::Sm2PublicKey { point: lib_point(&pk_ref, &hb(l)) };
-                    (pk.clone(), gm_sm2::key::Sm2PrivateKey { d: scalar(&d), public_key: pk })
+                    (pk.clone(), private_key_with(&d, pk))
                 }
                 None => (public_key(&pk_ref), private_key(&d)),
             };
